@@ -1,4 +1,5 @@
 from construct import Adapter
+from io import SEEK_SET
 from construct import Container
 from typing import  Tuple
 
@@ -142,6 +143,9 @@ class WavSampleAdapter(Adapter):
             }))
 
         # data chunk
+        # (the source views outlive one export: always start at their beginning)
+        for data_stream in sample.data_streams:
+            data_stream.stream.seek(0, SEEK_SET)
         data_generator = make_transcoder(sample.data_streams, dest_encoding)
         riff_chunks.append(Container({
             "riff_id":  WavRiffChunkType.DATA,
